@@ -1185,6 +1185,77 @@ class Summaries:
         return self.of_node(c.module, fn, f"{c.qual}.{meth}", c)
 
 
+def fold_sub(t):
+    """`(a, b)[0]` -> a, `{k: v}[k]` -> v after a substitution made the container explicit."""
+    if not isinstance(t, tuple) or not t:
+        return t
+    t = tuple(fold_sub(c) if isinstance(c, tuple) else c for c in t)
+    if t and t[0] == "sub" and t[1][0] in ("tuple", "list") and t[2][0] == "const" and isinstance(t[2][1], int) \
+            and not isinstance(t[2][1], bool) and -len(t[1][1]) <= t[2][1] < len(t[1][1]) \
+            and not any(x[0] == "star" for x in t[1][1]):
+        return t[1][1][t[2][1]]
+    return t
+
+
+def expand_pure_calls(t, summaries: "Summaries", cls: Optional[ClassInfo], module: Module, depth=0):
+    """Replace calls to side-effect free methods of `cls` (self.m(...)) and functions of `module` by their value.
+
+    A callee qualifies when its summary has no store / raise / yield / delete event and no statement loop; its value
+    is the conditional chain of its returns with the parameters replaced by the arguments.  Used by rules that follow
+    data flow (does field f reach keyword k?) and must not stop at a pure accessor such as `_get_soundevent_key`."""
+    if not isinstance(t, tuple) or not t or depth > 3:
+        return t
+    if not isinstance(t[0], str):
+        return tuple(expand_pure_calls(c, summaries, cls, module, depth) for c in t)
+    t = tuple(expand_pure_calls(c, summaries, cls, module, depth) if isinstance(c, tuple) else c for c in t)
+    if t[0] != "call":
+        return t
+    f = t[1]
+    cs = None
+    selfterm = None
+    try:
+        if f[0] == "attr" and f[1] in (("param", "self"), ("param", "cls")) and cls is not None:
+            cs = summaries.of_method(cls, f[2])
+            selfterm = f[1]
+        elif f[0] == "global" and f[2] == "func" and f[1].startswith(module.name + ":") and "." not in f[1].split(":")[1]:
+            cs = summaries.of_func(module.name, f[1].split(":")[1])
+    except AnalysisError:
+        return t
+    if cs is None or cs.is_generator or cs.kwarg or cs.vararg:
+        return t
+    if any(e.kind in ("store", "raise", "yield", "delete", "break", "continue") for e in cs.events):
+        return t
+    if any(li.kind != "comp" for li in cs.loops.values()):
+        return t
+    params = list(cs.params)
+    bound: Dict[tuple, tuple] = {}
+    if selfterm is not None:
+        if not params:
+            return t
+        bound[("param", params[0])] = selfterm
+        params = params[1:]
+    if any(a[0] == "star" for a in t[2]) or any(k == "**" for k, _ in t[3]) or len(t[2]) > len(params):
+        return t
+    for p, a in zip(params, t[2]):
+        bound[("param", p)] = a
+    for k, v in t[3]:
+        if k not in params or ("param", k) in bound:
+            return t
+        bound[("param", k)] = v
+    for p in params:
+        if ("param", p) not in bound:
+            if p not in cs.defaults:
+                return t
+            bound[("param", p)] = cs.defaults[p]
+    rets = cs.raw_returns
+    if not rets or cs.fall_live != FALSE:
+        return t
+    v = subst(rets[-1].term, bound)
+    for r in reversed(rets[:-1]):
+        v = ITE(subst(r.live, bound), subst(r.term, bound), v)
+    return fold_sub(expand_pure_calls(v, summaries, cls, module, depth + 1))
+
+
 # ---------------------------------------------------------------------------------- term utilities
 
 def walk(t):
